@@ -87,7 +87,7 @@ func props() []prop {
 		},
 		{
 			ID: "C12", Level: "exploration",
-			LevelText:   "decode(encode(x)) is compared with x (canonical form; nil == empty, time by instant, refs by address|path, errors by code+message) for reflection-generated values of every type in the wire registry, which is enumerated at run time through an overlaid export so that newly registered messages are picked up; message layer (WriteMessage/ReadMessage incl. nested registered and user-codec messages), envelope layer (system flag, nil/local/remote sender and receiver) and primitive layer (struct/slice/array shapes over all kinds Writer.Write and Reader.Read both support); the reader position must equal the number of bytes written. A registered type for which no value can be generated makes the run inconclusive instead of being skipped.",
+			LevelText:   "decode(encode(x)) is compared with x (canonical form; nil == empty, time by instant, refs by address|path, errors by code+message) for reflection-generated values of every type in the wire registry, which is enumerated at run time through an overlaid export so that newly registered messages are picked up; message layer (WriteMessage/ReadMessage incl. nested registered and user-codec messages), envelope layer (system flag, nil/local/remote sender and receiver) and primitive layer (struct/slice/array shapes over all kinds Writer.Write and Reader.Read both support); the reader position must equal the number of bytes written. Failing decodes (truncated earlier encodings) and encodes that fail inside the Writer happen between valid envelope round trips (readers and writers are pooled), and a race-detector unit (codecrace) runs the envelope round trip from 16 goroutines at once. A registered type for which no value can be generated makes the run inconclusive instead of being skipped.",
 			LevelNote:   "Trusted: the canonical-form function and the generators. Domain notes (not stricter than the codec's contract): int fields that the writers narrow to int32 are generated within int32; PongMessage.Ping == nil and pointer-typed struct fields are C13's business (must be an error, not a round trip).",
 			Technique:   "differential round-trip oracle over generated inputs of every registered type (registry enumerated at run time)",
 			DesignRef:   "DESIGN.md §4 C12",
@@ -111,7 +111,7 @@ func props() []prop {
 		},
 		{
 			ID: "C07", Level: "exploration",
-			LevelText:   "All sequential call sequences of length <= 4 over {Start, Stop, Stop(t), context cancel} and PRNG scenarios with groups of concurrent calls are executed on real systems (populated with trees in awkward states: restart in progress, paused supervisor, stash content, zombie, an actor held in a handler) inside a synctest bubble. The recorded call/return/result history must be linearizable (porcupine) w.r.t. the ready->started->stopped reference machine; every call must return within its timeout of virtual time (rejections in zero time); after a successful Stop or a cancel nothing may be registered; synctest reports any goroutine of the system left blocked when the scenario ends. An inject tier puts a maximal delay at one statement of Start/stop so that the other calls land inside it. A real-time unit repeats Start/Stop with remoting between two systems (incl. Stop during outbound retries with a timeout far below the retry budget) and polls the goroutine profile for frames of vivid/go-quartz.",
+			LevelText:   "All sequential call sequences of length <= 4 over {Start, Stop, Stop(t), context cancel} and PRNG scenarios with groups of concurrent calls are executed on real systems (populated with trees in awkward states: restart in progress, paused supervisor, stash content, zombie, an actor held in a handler) inside a synctest bubble. The recorded call/return/result history must be linearizable (porcupine) w.r.t. the ready->started->stopped reference machine; every call must return within its timeout of virtual time (rejections in zero time); after a successful Stop or a cancel nothing may be registered; synctest reports any goroutine of the system left blocked when the scenario ends. An inject tier puts a maximal delay at one statement of Start/stop so that the other calls land inside it. An enumerated unit (oddnames) spawns actors under 25 unusual names (dot segments, slashes, escapes, colons, a sibling's name ...) from the system and from an actor and requires a refusal or a path strictly below the parent, then a clean Stop. A real-time unit repeats Start/Stop with remoting between two systems (incl. Stop during outbound retries with a timeout far below the retry budget) and polls the goroutine profile for frames of vivid/go-quartz.",
 			LevelNote:   "Trusted: porcupine, synctest (virtual-time bounds are exact; leftover goroutines are reported by the runtime), the goroutine-profile parser of the real-time unit (bounded polling, stall-gated).",
 			Technique:   "linearizability check of recorded call histories against a reference state machine + virtual-time bounds + goroutine-leak monitor",
 			DesignRef:   "DESIGN.md §4 C07",
